@@ -1478,7 +1478,6 @@ func isFileContents(v ssa.Value, cl *ssa.Function, depth int) (bool, string) {
 	return false, "the bytes handed to Match are not the result of ReadFile(filename) of this call (" + eng.Describe(v) + "): bytes from elsewhere (a reused buffer, another file) would be classified under this file's name"
 }
 
-
 // checkToolOutputRules: three rules on how the tool produces its output.
 // R19.13 what is printed reaches the terminal whichever way the tool ends: a Flush that is only deferred does not run when
 // the function goes on to log.Fatal / os.Exit, so a buffered writer over the standard output loses the lines printed.
@@ -1680,7 +1679,6 @@ func checkToolOutputRules(c *Ctx, p *core.Prog) {
 	}
 	c.R.RequireMin("R19.15", "regular expressions compiled by the tool", nRe, 1)
 }
-
 
 // nonEmptyOnAllPaths: every way from block `from` to block `to` that passes no fatal exit takes a branch that says
 // len(res) != 0.
